@@ -242,7 +242,8 @@ func genC18(t *rapid.T) (C18Case, []string) {
 			cl = append(cl, "macro-arg")
 		case 7:
 			mp := rapid.SampledFrom(c18Maps).Draw(t, "map")
-			parts = append(parts, "{{ "+mp+"|keys|sort|reverse|join(',') }}{{ "+mp+"|merge({'zz': 1, 'a': 99})|keys|join(',') }}{% for k, v in "+mp+" %}{% set v = 0 %}{% endfor %}{{ "+mp+"|length }}")
+			parts = append(parts, "{{ "+mp+"|keys|sort|reverse|join(',') }}{{ "+mp+"|merge({'zz': 1, 'a': 99})|keys|join(',') }}{% for k, v in "+mp+" %}{% set v = 0 %}{% endfor %}{{ "+mp+"|length }}"+
+				"{{ merge("+mp+", {'fz': 1, 'a': 98})|keys|join(',') }}{{ merge("+mp+", "+mp+")|length }}{{ merge({'q': 1}, "+mp+")|keys|join }}{{ "+mp+"|keys|join('.') }}")
 			cl = append(cl, "map-filters")
 		case 8:
 			parts = append(parts, "{% set "+strings.Split(coll, ".")[0]+" = "+c18Chain(t, coll)+" %}{{ "+strings.Split(coll, ".")[0]+"|json_encode }}")
@@ -274,7 +275,7 @@ func genC18(t *rapid.T) (C18Case, []string) {
 	return C18Case{Ctx: ctx, Tmpl: tm, Debug: dbg}, cl
 }
 
-const c18Rule = "contexts in which every collection is reachable twice (aliased keys) and nested (untyped lists with spare capacity, []int, []string, [3]int, named slice and map types (type Row []interface{} ...), untyped and typed maps, struct and pointer-to-struct fields); templates that apply chains of 1-4 collection-returning filters (sort, reverse, merge, slice, default) and functions (merge, max, cycle, range) to them, set results and re-filter them, loop with set on the loop variable, pass them through include-with and macro arguments where the callee reassigns and re-filters them, rebind context names, or assign in one corner only (an else branch, below apply/block/spaceless); one case in five with the engine in debug mode; non-trivial = at least one collection-returning filter is applied to a context collection with >= 2 elements (always true by construction); distinct by (context, template)"
+const c18Rule = "contexts in which every collection is reachable twice (aliased keys) and nested (untyped lists with spare capacity, []int, []string, [3]int, named slice and map types (type Row []interface{} ...), untyped and typed maps, struct and pointer-to-struct fields); templates that apply chains of 1-4 collection-returning filters (sort, reverse, merge, slice, default) and functions (merge on lists and on maps, max, cycle, range) to them, set results and re-filter them, loop with set on the loop variable, pass them through include-with and macro arguments where the callee reassigns and re-filters them, rebind context names, or assign in one corner only (an else branch, below apply/block/spaceless); one case in five with the engine in debug mode; non-trivial = at least one collection-returning filter is applied to a context collection with >= 2 elements (always true by construction); distinct by (context, template)"
 
 func TestC18Immutable(t *testing.T) {
 	r := NewRec(t, "C18", c18Rule)
